@@ -47,3 +47,8 @@ Example C16_nonvacuous :
   send_packet 7 [(0, mkH 10 false [mkP false 7 [9]]); (2, mkH 12 true [])] (mkP false 7 [1]) (mkI [] [] []) =
     (Val tt, [(0, 10, mkP false 7 [1]); (0, 10, mkP false 7 [9]); (2, 12, mkP false 7 [9]); (2, 12, mkP false 7 [1])], mkI [] [] []).
 Proof. repeat split; reflexivity. Qed.
+
+(* the extracted checker accepts the model's observations of every operation history (the table it rebuilds from the returned ids is the model's) *)
+Require Import RP.Glue.Wire RP.Glue.StreamLink RP.Glue.StreamProto RP.Lemmas.GlueLemmas.
+Theorem C16_checker_accepts_model : forall case own ops, pro_split case = Some (own, ops) -> ok_C16 case (run_PRO case) = [].
+Proof. exact ok_C16_accepts_model. Qed.
